@@ -3,7 +3,7 @@
 (* 9338 Countersign_structure over the parent's exact fields; a countersignature *)
 (* verifies iff those fields are unchanged; unsigned / payload-less parents are  *)
 (* refused without touching the key; no replay across structure kinds or forms.  *)
-EXTENDS CoseSystem, Json
+EXTENDS CoseSystem, Json, TraceKit
 Tr == ndJsonDeserialize("tr.ndjson")
 VARIABLE l
 
@@ -46,9 +46,9 @@ ReplayFails(e) == IF e.obs[Len(e.obs)].res = "ok" THEN {"countersignature-replay
 
 Fails(e) == CASE e.flow = "bind" -> BindFails(e) [] e.flow = "refuse" -> RefuseFails(e) [] e.flow = "replay" -> ReplayFails(e)
 
-TInit == l = 1
+TInit == l = 1 /\ KitInit
 TNext == /\ l <= Len(Tr) /\ l' = l + 1
-         /\ LET f == Fails(Tr[l]) IN f = {} \/ PrintT(<<"REJECT", l, f>>)
+         /\ Note(l, Fails(Tr[l]))
 TSpec == TInit /\ [][TNext]_l
-Accepted == TLCGet("stats").diameter - 1 = Len(Tr)
+Accepted == KitDone(Len(Tr))
 =============================================================================
